@@ -1644,7 +1644,23 @@ def _t_explog(case):
     return case.get("kind") == "reg" and short(case["fn"]) in ("exp", "log") and not case.get("kw", {}).get("support_only")
 
 
+def _t_krondiag_sqrt_neg(case):
+    """sqrt of a Kronecker product of diagonals is taken factor by factor: a negative entry in a factor"""
+    if case.get("kind") != "reg" or short(case["fn"]) != "sqrt":
+        return False
+    for n in R.walk(case["recipe"]):
+        if n["op"] == "KroneckerDiag":
+            for a in n["args"]:
+                try:
+                    if bool((refmodel.dense(a) < 0).any()):
+                        return True
+                except Exception:
+                    return True
+    return False
+
+
 TRIGGERS = {
+    "krondiag_sqrt_negative_factor": _t_krondiag_sqrt_neg,
     "alpha_reversed": _t_alpha,
     "identity_exp": _t_identity_exp,
     "constdiag_solve_triangular": _t_constdiag,
